@@ -26,7 +26,7 @@ var errC18NotFound = errors.New("c18: not found")
 
 type c18Scenario struct {
 	N        int    `json:"n"`
-	Outcomes []int  `json:"outcomes"` // 0 success, 1 not found, 2 other error
+	Outcomes []int  `json:"outcomes"` // 0 success, 1 not found, 2 other error, 3 error wrapping context.DeadlineExceeded
 	Conc     int    `json:"concurrency"`
 	Bound    int    `json:"bound"`
 	Name     string `json:"name"`
@@ -45,6 +45,9 @@ func (sc c18Scenario) run(c *explore.Ctx) (explore.Result, *vsched.Sched) {
 			jobErrs[i] = errC18NotFound
 		case 2:
 			jobErrs[i] = fmt.Errorf("c18: job %d failed", i)
+		case 3:
+			// a job's own I/O timing out: an error that wraps a context error while the request context is live
+			jobErrs[i] = fmt.Errorf("c18: job %d: remote index read: %w", i, context.DeadlineExceeded)
 		}
 		fns[i] = func(ctx context.Context) (int, error) {
 			vsched.Yield("job")
@@ -144,7 +147,7 @@ func c18Scenarios() []c18Scenario {
 	for n := 1; n <= boundedN; n++ {
 		dims := make([]int, n)
 		for i := range dims {
-			dims[i] = 3
+			dims[i] = 4
 		}
 		explore.Product(dims, func(ix []int) bool {
 			concs := []int{-1, 0}
@@ -173,7 +176,7 @@ func TestVerif_C18(t *testing.T) {
 	silenceKlog()
 	R := vkit.New("C18")
 	defer R.Finish()
-	R.Rule = "scenario = (n jobs, outcome vector in {success,notfound,error}^n, concurrency limit); every interleaving of the instrumented FirstSuccess+errgroup is executed (unbounded for small n, preemption-bounded above); non-trivial = execution with at least one context switch between managed threads; states = distinct (scenario, outcome) pairs, transitions = scheduling points executed"
+	R.Rule = "scenario = (n jobs, outcome vector in {success, not-found, error, error wrapping context.DeadlineExceeded}^n, concurrency limit); every interleaving of the instrumented FirstSuccess+errgroup is executed (unbounded for small n, preemption-bounded above); non-trivial = execution with at least one context switch between managed threads; states = distinct (scenario, outcome) pairs, transitions = scheduling points executed"
 	if rp := vkit.ReplayRequest(); rp != nil {
 		var sc c18Scenario
 		remarshal(rp["scenario"], &sc)
